@@ -103,6 +103,30 @@ func (x *Exec) enterLoop(st *State, fr *Frame, from, to *ssa.BasicBlock, li *loo
 		}
 		return sv.T
 	}
+	if isBack && ct != nil {
+		// history sequences: name(i) is the ghost expression at the end of the iteration that started with $i == i
+		for _, cl := range ct.Of("loopghost") {
+			if cl.Loop != k {
+				continue
+			}
+			lg, ok := st.lghost[cl.Name]
+			pi, ok2 := fr.prevNames[to]["$i"].(TV)
+			if !ok || !ok2 {
+				x.fail("loop %d ghost %s of %s: needs a counted loop ($i)", k, cl.Name, fr.fn.Name())
+				continue
+			}
+			sv, err := evalSpecFns(cl.node, x.frameEnv(st, fr), x.sigs, bound, fr.xsigs, fr.xsyms)
+			if err != nil {
+				if strings.Contains(err.Error(), "unknown identifier") && fr.isTop {
+					x.addInapplicable(fmt.Sprintf("loop%d.ghost", k), cl.Name, cl.Text, err.Error(), cl.Props)
+					continue
+				}
+				x.fail("loop %d ghost %s of %s: %v", k, cl.Name, fr.fn.Name(), err)
+				continue
+			}
+			st.Assume(eq(app(lg.Sym, pi.T), sv.T))
+		}
+	}
 	if isBack {
 		for _, cl := range invs {
 			x.addObl(fmt.Sprintf("loop%d.step", k), cl.Tag, cl.Text, st, evalInv(cl), cl.Props)
@@ -136,6 +160,20 @@ func (x *Exec) enterLoop(st *State, fr *Frame, from, to *ssa.BasicBlock, li *loo
 		}
 		fr.names = savedNames
 		return nil
+	}
+	if ct != nil {
+		for _, cl := range ct.Of("loopghost") {
+			if cl.Loop == k {
+				// a fresh sequence per entry of the loop (a loop entered twice has two histories)
+				x.lgN++
+				sym := fmt.Sprintf("lg!%s!%d", cl.Name, x.lgN)
+				x.enc.DeclFun(sym, []string{"Int"}, cl.Sort)
+				if st.lghost == nil {
+					st.lghost = map[string]LGhost{}
+				}
+				st.lghost[cl.Name] = LGhost{Sym: sym, Sort: cl.Sort}
+			}
+		}
 	}
 	for _, cl := range invs {
 		x.addObl(fmt.Sprintf("loop%d.init", k), cl.Tag, cl.Text, st, evalInv(cl), cl.Props)
@@ -273,6 +311,7 @@ func (x *Exec) havocValue(st *State, old Value, ty types.Type, hint string) Valu
 func (x *Exec) havocLoop(st *State, fr *Frame, header *ssa.BasicBlock, li *loopInfo) {
 	cells := map[int]bool{}
 	ghosts := map[string]bool{}
+	evHandles := map[int]bool{}
 	all := false
 	x.dynCtxArgs = nil
 	x.dynCommits = nil
@@ -305,6 +344,13 @@ func (x *Exec) havocLoop(st *State, fr *Frame, header *ssa.BasicBlock, li *loopI
 					}
 				}
 				ws, unk := x.callWrites(cc, map[*ssa.Function]bool{})
+				if cc.IsInvoke() && ws["$events"] {
+					// a direct Emit* on an event manager: only the event list of its context handle becomes unknown
+					if h, ok := x.evMgrHandle(fr, cc.Value); ok {
+						evHandles[h] = true
+						delete(ws, "$events")
+					}
+				}
 				for n := range ws {
 					ghosts[n] = true
 				}
@@ -345,6 +391,9 @@ func (x *Exec) havocLoop(st *State, fr *Frame, header *ssa.BasicBlock, li *loopI
 				}
 			}
 		}
+	}
+	for h := range evHandles {
+		x.store(st, h).EvOpaque = true
 	}
 	if all || ghosts["perm.admin"] {
 		// bridge-hook notifications may be sent in the body: their number is arbitrary after the loop
@@ -477,6 +526,9 @@ func (x *Exec) callWrites(cc *ssa.CallCommon, seen map[*ssa.Function]bool) (map[
 			out["perm.admin"] = true
 		case iface == "ChannelKeeper":
 		case iface == "EventManagerI":
+			if strings.HasPrefix(cc.Method.Name(), "Emit") {
+				out["$events"] = true
+			}
 		case iface == "OracleKeeper":
 			out["oracle.price"] = true
 		case iface == "ValidatorStore":
@@ -1046,6 +1098,22 @@ func (x *Exec) cellsWrittenBy(st *State, fn *ssa.Function, free []Value, cells m
 
 // outerCtxHandle resolves a context value to the store handle of the nearest enclosing context known in the frame:
 // contexts derived inside a loop body (CacheContext, With* setters) are followed back to their receiver.
+// evMgrHandle: the context handle an event manager value belongs to (known value, or ctx.EventManager() computed in the loop).
+func (x *Exec) evMgrHandle(fr *Frame, v ssa.Value) (int, bool) {
+	if ev, ok := fr.env[v]; ok {
+		if o, ok := ev.(ObjV); ok && strings.HasPrefix(o.Path, "evmgr@") {
+			h := 0
+			fmt.Sscanf(o.Path, "evmgr@%d", &h)
+			return h, true
+		}
+		return 0, false
+	}
+	if call, ok := v.(*ssa.Call); ok && len(call.Call.Args) > 0 && isCtxType(call.Call.Args[0].Type()) {
+		return x.outerCtxHandle(fr, call.Call.Args[0], 0)
+	}
+	return 0, false
+}
+
 func (x *Exec) outerCtxHandle(fr *Frame, v ssa.Value, depth int) (int, bool) {
 	if ev, ok := fr.env[v]; ok {
 		if cv, ok := ev.(CtxV); ok {
